@@ -118,7 +118,12 @@ func fixedC07(tier string, seed uint64) []*sim.Plan {
 	var out []*sim.Plan
 	idx := 0
 	for _, dir := range []string{"c2s", "s2c"} {
-		for k := 0; k <= 460; k += step {
+		for k := 0; k <= 460; k++ {
+			// quick: every 12th byte, and every 2nd byte of the server-to-client stretch that carries the
+			// probe pong and the first frames after the switch (where a cut lands inside upgradeTo)
+			if step > 1 && k%step != 0 && !(dir == "s2c" && k >= 180 && k <= 300 && k%2 == 1) {
+				continue
+			}
 			p := sim.NewPlan("C07", "fault", seed, 2_000_000+idx)
 			idx++
 			p.Set("lat_us", 2000)
